@@ -2,6 +2,7 @@
 (* Trace validation for C02.  One event = one generated tag line (module TagLine)    *)
 (* given to the real reader                                                           *)
 (*   via "api"   extract_reuse_info(text)      via "lint"  a file read by lint --json *)
+(*   via "skip"  annotate --skip-existing on a file holding the line (e.recognised)   *)
 (*   e.c        the case (parts of the line)   e.line  the rendered line              *)
 (*   e.place    "head" | "beyond" (the line starts after byte 4096)                   *)
 (*   e.snippet  the file contains an SPDX snippet marker                              *)
@@ -21,6 +22,8 @@ Expected(e) ==
 Verdict(e) ==
    IF e.crash # "" THEN "crash"
    ELSE IF e.line # Render(e.c) THEN "harness.rendered-line-differs-from-spec"
+   ELSE IF e.via = "skip"                 \* third reader: `annotate --skip-existing` must see what the file already declares
+        THEN (IF Expected(e) # {} /\ ~e.recognised THEN "C02.tag-not-recognised" ELSE "")
    ELSE IF SeqSet(e.obs) = Expected(e) THEN ""
    ELSE IF Expected(e) = {} THEN (IF e.poison THEN "C02.unparseable-expression-did-not-silence-the-file" ELSE "C02.tag-beyond-4KiB-read-without-snippet-marker")
    ELSE IF e.obs = <<>> THEN "C02.tag-not-recognised"
